@@ -13,6 +13,7 @@ use std::time::Instant;
 pub enum Rule {
     OperandKind,     // R1  operand replaced by a value of a fresh nominal type
     OperandWidth,    // R1b literal operand gets a different width suffix
+    OperatorKind,    // R1c arithmetic operator on Boolean operands / logical operator on numbers
     CallArgReplace,  // R2
     CallArgDrop,     // R2
     CallArgAdd,      // R2
@@ -46,9 +47,10 @@ pub enum Rule {
     AssignWrongType, // extra: assignment of a value of the wrong type
 }
 
-pub const ALL_RULES: [Rule; 33] = [
+pub const ALL_RULES: [Rule; 34] = [
     Rule::OperandKind,
     Rule::OperandWidth,
+    Rule::OperatorKind,
     Rule::CallArgReplace,
     Rule::CallArgDrop,
     Rule::CallArgAdd,
@@ -139,6 +141,23 @@ impl M {
                         **b = zq();
                         self.mark(format!("rhs of {}", op.sym()));
                         return;
+                    }
+                }
+                if self.rule == Rule::OperatorKind {
+                    // `&&` / `||` have Boolean operands: every arithmetic operator on them is a type error;
+                    // arithmetic and comparison operators have numeric operands here: `&&` / `||` on them is one
+                    let replacements: &[BinOp] = match op {
+                        BinOp::And | BinOp::Or => &[BinOp::Add, BinOp::Sub, BinOp::Mul, BinOp::Div, BinOp::Rem, BinOp::Shl, BinOp::Shr],
+                        BinOp::Add | BinOp::Sub | BinOp::Mul | BinOp::Div | BinOp::Rem | BinOp::Lt | BinOp::Gt | BinOp::Le | BinOp::Ge => &[BinOp::And, BinOp::Or],
+                        _ => &[],
+                    };
+                    for r in replacements {
+                        if self.hit() {
+                            let old = *op;
+                            *op = *r;
+                            self.mark(format!("operator {} := {}", old.sym(), r.sym()));
+                            return;
+                        }
                     }
                 }
                 if self.rule == Rule::OperandWidth {
